@@ -1019,10 +1019,9 @@ def predictor(chk, prog):
         if str(lv1[i1][1]) != '0' or str(lv1[i1][2]) != '$0->row' or str(lv1[j1][1]) != '0' or str(lv1[j1][2]) != '$1->yloadings->row':
             problems.append(('sum-cells', c1, 'the sum is not stored for every object and every response'))
     # zeroed start: the result is resized (zero-filled) before
-    rz = [n for n in walk(f.body) if n.get('kind') == 'CallExpr' and callee_name(n) == 'ResizeMatrix' and
-          f.unit.text(call_args(n)[0]).strip() == pn[3]]
-    if not rz:
-        problems.append(('start', c1, 'the result is not zero-filled (ResizeMatrix) before the sum is accumulated into it'))
+    if not zero_filled_first(f, pn[3], c1.node):
+        problems.append(('start', c1, 'the result is not zero-filled (ResizeMatrix, unconditionally, before the loop) when the sum is accumulated into it: '
+                         'an output that already has the right shape keeps its old content'))
     # 2. scale, 3. shift
     def colwise(c, field, mode):
         idx = [str(x) for x in c.out[1]]
@@ -1064,6 +1063,15 @@ def predictor(chk, prog):
 
 def g_text(f, n):
     return f.unit.text(n).replace(' ', '')
+
+
+def zero_filled_first(f, name, node):
+    """ResizeMatrix(name, ..) is a top-level statement of the function body (on every path) that precedes the top-level statement containing `node`"""
+    top = [strip(s) for s in kids(f.body)]
+    pos_node = [i for i, s in enumerate(top) if any(m is node for m in walk(s))]
+    pos_rz = [i for i, s in enumerate(top) if s.get('kind') == 'CallExpr' and callee_name(s) == 'ResizeMatrix' and
+              f.unit.text(call_args(s)[0]).strip() == name]
+    return bool(pos_node and pos_rz and min(pos_rz) < pos_node[0])
 
 
 def _as_block(n):
